@@ -122,7 +122,27 @@ def setup_env():
         import numba_scfg.rendering.rendering  # noqa  (does basicConfig(DEBUG))
     except Exception:
         pass
-    logging.disable(logging.CRITICAL)
+    if os.environ.get("VMON_LOGFORMAT") == "1":
+        # configuration dimension: DEBUG records of the library are FORMATTED
+        # (numba_scfg.rendering does logging.basicConfig(level=DEBUG) at import,
+        # so this is what any process that has rendered a graph looks like);
+        # the text is thrown away
+        logging.disable(logging.NOTSET)
+        root = logging.getLogger()
+        for h in list(root.handlers):
+            root.removeHandler(h)
+
+        class _Sink(logging.Handler):
+            def emit(self, record):
+                try:
+                    self.format(record)
+                except Exception:
+                    pass
+
+        root.addHandler(_Sink(level=logging.DEBUG))
+        root.setLevel(logging.DEBUG)
+    else:
+        logging.disable(logging.CRITICAL)
 
 
 def sha(obj):
